@@ -172,13 +172,28 @@ def run_case(case, tier):
     if any(r.raw is None and not (-999 <= r.resnum <= 9999) for r in new):
         return util.finish(case, viol, counts, classes, False, {"skipped": "number out of field"}, inconclusive="field")
     ta, tb = pdbio.dump(recs), pdbio.dump(new)
-    ra = obs.run_single(ta)
-    rb = obs.run_single(tb)
+    opts = ["-d"] if rng.random() < 0.15 else []
+    ra = obs.run_single(ta, opts)
+    rb = obs.run_single(tb, opts)
     counts["pipeline_runs"] = 2
     counts["comparisons"] = 1
     counts["relabel:" + kind] = 1
     twins = has_twins(recs)
     diffs = obs.compare_runs(ra, rb, tol=1e-7)
+    if not diffs and ra.rec and rb.rec:
+        # which groups are (non-)covalently coupled, and to whom, must not depend on labels either
+        for cname in ra.rec["names"]:
+            ia, _ = obs.index_groups(ra.rec["confs"][cname])
+            ib, _ = obs.index_groups(rb.rec["confs"][cname])
+            for k, g in ia.items():
+                h = ib.get(k)
+                if h is None:
+                    continue
+                for fld in ("ncov", "cov"):
+                    if sorted(map(tuple, g[fld])) != sorted(map(tuple, h[fld])):
+                        diffs.append((cname, "coupling", g["label"], fld, len(g[fld]), len(h[fld])))
+                if (g["ctg"] is None) != (h["ctg"] is None):
+                    diffs.append((cname, "coupling", g["label"], "penalised", g["ctg_label"], h["ctg_label"]))
     if diffs:
         if kind == "icode-renumber" and twins:
             cls = "icode-twins-merged"
